@@ -64,6 +64,10 @@ func c03flags(s *Sexp) (cp, ce, ic bool) {
 }
 
 func sameErr(a, b error) (same bool) {
+	if ua, ok := a.(tyErr2); ok { // the uncomparable leaf kind: `==` would panic, compare what identifies it
+		ub, ok := b.(tyErr2)
+		return ok && ua.id == ub.id
+	}
 	defer func() {
 		if recover() != nil {
 			same = false
